@@ -140,7 +140,7 @@ def compare_case(ctx, label, src, args, S, method, gt_cases, replay_extra=None):
 
 def coq_eval_cases(ctx, name, cases):
     """Coq evaluates rtrace on every shipped op list; compare with the Python twin and the impl."""
-    chunks = [cases[i:i + 400] for i in range(0, len(cases), 400)]
+    chunks = [cases[i:i + 150] for i in range(0, len(cases), 150)]
     bodies = [(f"{name}_{k}", COQ_IMPORT + "Eval vm_compute in (lines (map (fun ops => show_trace (rtrace ops)) %s))." %
                clist([c[1] for c in ch])) for k, ch in enumerate(chunks)]
     mism, twin = [], []
